@@ -148,14 +148,15 @@ let () =
     let y = Kernels.spmv s s.Scalar.s1 a x s.Scalar.s0 (zeros b (nrows a)) in
     if List.length y = List.length rhs && List.for_all2 (beq b) y rhs then "OK"
     else "FAIL Ax=" ^ show_blocks y);
-  (* b.o_triangular <b> <L> <U> <D> <rhs> <x>: substitution form of (I+L)(D^-1+U) x = rhs, written with the
-     stored inverted pivots only:  y = rhs - L y (forward),  x_i = D_i (y_i - (U x)_i)  -- left products *)
+  (* b.o_triangular <b> <L> <U> <D> <rhs> <x>: substitution form of (I+L)(D^-1+U) x = rhs, written with the stored
+     inverted pivots only (left products, no inverse needed -- theorem C06_nc_ilu_solve):
+       exists y:  y_i + (L y)_i = rhs_i  (forward equations; y is recomputed by Ilu.lsolve and the equations are
+                                          then CHECKED with Kernels.spmv, the C07-proved definition of L y)
+       and        x_i = D_i * (y_i - (U x)_i)  for the implementation's x  (backward equations) *)
   reg "b.o_triangular" (fun t -> let b = t_i t in let s = inst b in
     let l = t_bcrs b t in let u = t_bcrs b t in let d = t_blocks b t in let rhs = t_bvec b t in let x = t_bvec b t in
     let n = nrows l in
     let ux = Kernels.spmv s s.Scalar.s1 u x s.Scalar.s0 (zeros b n) in
-    (* y_i := D_i^-1 x_i + (U x)_i is not available without inverting; instead recover y from the forward
-       equations and test the backward ones *)
     let y = Ilu.lsolve s l rhs in
     let ly = Kernels.spmv s s.Scalar.s1 l y s.Scalar.s0 (zeros b n) in
     let fwd = List.for_all2 (beq b) (List.map2 s.Scalar.sadd y ly) rhs in
